@@ -29,18 +29,36 @@ KINDS = ["POSITIONAL_ONLY", "POSITIONAL_OR_KEYWORD", "VAR_POSITIONAL", "KEYWORD_
 
 
 def _chain(build_node):
-    """[(method, args, kwargs)] of the MethodBuilder(...) fluent chain in a build_method."""
+    """[(method, args, kwargs)] of the MethodBuilder(...) fluent chain in a build_method.  Reads the chained expression
+    form and the sequential form `b = MethodBuilder(...); b = b.with_x(...); return b.build()`."""
+    assigns = {}
+    for n in ast.walk(build_node):
+        if isinstance(n, ast.Assign) and len(n.targets) == 1 and isinstance(n.targets[0], ast.Name):
+            assigns.setdefault(n.targets[0].id, []).append(n)
     chains = []
     for n in ast.walk(build_node):
         if isinstance(n, ast.Call) and isinstance(n.func, ast.Attribute) and n.func.attr == "build":
             cur = n.func.value
+            before = n.lineno
             links = []
-            while isinstance(cur, ast.Call):
-                if isinstance(cur.func, ast.Attribute):
-                    links.append((cur.func.attr, cur.args, {k.arg: k.value for k in cur.keywords}))
-                    cur = cur.func.value
+            hops = 0
+            while hops < 64:
+                hops += 1
+                if isinstance(cur, ast.Call):
+                    if isinstance(cur.func, ast.Attribute):
+                        links.append((cur.func.attr, cur.args, {k.arg: k.value for k in cur.keywords}))
+                        cur = cur.func.value
+                    else:
+                        links.append(("<ctor>", cur.args, {k.arg: k.value for k in cur.keywords}))
+                        break
+                elif isinstance(cur, ast.Name):
+                    prev = [a for a in assigns.get(cur.id, []) if a.lineno < before]
+                    if not prev:
+                        break
+                    a = max(prev, key=lambda a: a.lineno)
+                    before = a.lineno
+                    cur = a.value
                 else:
-                    links.append(("<ctor>", cur.args, {k.arg: k.value for k in cur.keywords}))
                     break
             chains.append(list(reversed(links)))
     return chains
@@ -140,19 +158,28 @@ def v_rule(ctx, rep, rule="C17.V"):
             between = "".join(p[1] for p in flat[i_val + 1:i_impl + 1] if p[0] == "text")
             if "return implementation(" not in between:
                 bad.append("template shape changed")
-    va = [n for n in ast.walk(b.node) if isinstance(n, ast.FunctionDef) and n.name == "validate_attrs"]
+    from .base import with_private_callees
+    va = [(g_, n) for g_ in with_private_callees(ctx.p, b) for n in ast.walk(g_.node) if isinstance(n, ast.FunctionDef) and n.name == "validate_attrs"]
     if not va:
         bad.append("validate_attrs not defined")
     else:
-        s = ast.unparse(va[0])
-        guards = [n for n in ast.walk(va[0]) if isinstance(n, ast.If) and any(isinstance(x, ast.Raise) and "TypeError" in ast.unparse(x) for x in ast.walk(n))]
+        encl, vfn = va[0]
+        s = ast.unparse(vfn)
+        guards = [n for n in ast.walk(vfn) if isinstance(n, ast.If) and any(isinstance(x, ast.Raise) and "TypeError" in ast.unparse(x) for x in ast.walk(n))]
         exact = [g for g in guards if isinstance(g.test, ast.Compare) and len(g.test.ops) == 1 and isinstance(g.test.ops[0], ast.NotIn)
-                 and ast.unparse(g.test.comparators[0]) == "VALID_KWARGS"]
+                 and isinstance(g.test.comparators[0], ast.Name)]
         if not exact or "raise TypeError" not in s:
             bad.append("validate_attrs no longer raises TypeError for every name outside the advertised virtual parameters"
                        + (f" (guard is `{ast.unparse(guards[0].test)}`)" if guards else ""))
-    if "VALID_KWARGS = {p.name for p in self.method_args_virtual}" not in ast.unparse(b.node):
-        bad.append("VALID_KWARGS is no longer exactly the names of the virtual parameters")
+        else:
+            setname = exact[0].test.comparators[0].id
+            defs = [n for n in ast.walk(encl.node) if isinstance(n, ast.Assign) and len(n.targets) == 1 and ast.unparse(n.targets[0]) == setname]
+            ok_set = len(defs) == 1 and isinstance(defs[0].value, ast.SetComp) and len(defs[0].value.generators) == 1 \
+                and not defs[0].value.generators[0].ifs and ast.unparse(defs[0].value.generators[0].iter) == "self.method_args_virtual" \
+                and isinstance(defs[0].value.generators[0].target, ast.Name) \
+                and ast.unparse(defs[0].value.elt) == defs[0].value.generators[0].target.id + ".name"
+            if not ok_set:
+                bad.append("VALID_KWARGS is no longer exactly the names of the virtual parameters")
     if "method.__signature__ = signature_advertised" not in ast.unparse(b.node):
         bad.append("the advertised signature is not installed as __signature__")
     rep.oblige(rule, "MethodBuilder.build", not bad, "; ".join(bad))
@@ -244,10 +271,16 @@ def _check_main(ctx, rep: Report):
     ok = False
     detail = "loop not found"
     if loops:
-        ifs = [s for s in loops[0].body if isinstance(s, ast.If) and any(isinstance(x, ast.Continue) for x in s.body)]
+        body = [s for s in loops[0].body if not (isinstance(s, ast.Expr) and isinstance(s.value, ast.Constant))]
+        ifs = [s for s in body if isinstance(s, ast.If) and s.body and isinstance(s.body[-1], ast.Continue) and not s.orelse]
+        skip = None
         if ifs:
+            skip = ifs[0].test if len(ifs) == 1 else ast.BoolOp(op=ast.Or(), values=[i.test for i in ifs])
+        elif len(body) == 1 and isinstance(body[0], ast.If) and not body[0].orelse:
+            skip = ast.UnaryOp(op=ast.Not(), operand=body[0].test)
+        if skip is not None:
             def classify(n):
-                t = ast.unparse(n)
+                t = _dealias(ws.node, n)
                 if t == "attr_spec.init":
                     return ("init", True)
                 if isinstance(n, ast.Compare) and isinstance(n.ops[0], (ast.In, ast.NotIn)) and "current_args" in t:
@@ -256,7 +289,7 @@ def _check_main(ctx, rep: Report):
                     return ("is_overflow", isinstance(n.ops[0], ast.Eq))
                 return None
             try:
-                tbl = boolfn.table(ifs[0].test, classify, ["init", "already_arg", "is_overflow"])
+                tbl = boolfn.table(skip, classify, ["init", "already_arg", "is_overflow"])
                 want = {(i, a, o): (not i) or a or o for i in (False, True) for a in (False, True) for o in (False, True)}
                 ok = tbl == want
                 detail = "" if ok else f"skip table {tbl}"
@@ -281,8 +314,16 @@ def _check_main(ctx, rep: Report):
     oracle = {"POSITIONAL_ONLY": "{name}", "POSITIONAL_OR_KEYWORD": "{name}={name}", "VAR_POSITIONAL": "*{name}",
               "KEYWORD_ONLY": "{name}={name}", "VAR_KEYWORD": "**{name}"}
     bad = []
+    call_stmts = loops[0].body if loops else None
     if not loops:
-        raise AnalysisError("C17.KIND: loop not found in _method_signature_to_implementation_call")
+        # comprehension form: ", ".join(render(name, p.kind) for name, p in ...) with a package-level renderer
+        for comp in (n for n in walk_own(ic.node) if isinstance(n, (ast.GeneratorExp, ast.ListComp))):
+            if isinstance(comp.elt, ast.Call) and isinstance(comp.elt.func, ast.Name):
+                r_ = ctx.p.resolve_global(ic.module, comp.elt.func.id)
+                if r_ and r_[0] == "func":
+                    call_stmts = [x for x in r_[1].node.body if not (isinstance(x, ast.Expr) and isinstance(x.value, ast.Constant))]
+        if call_stmts is None:
+            raise AnalysisError("C17.KIND: loop not found in _method_signature_to_implementation_call")
 
     def branch_for(stmts, kind, flags=None):
         """Follow if/elif chains whose tests are `p.kind is <X>` (and flag names)."""
@@ -295,7 +336,8 @@ def _check_main(ctx, rep: Report):
                         return all(vs) if isinstance(t.op, ast.And) else any(vs)
                     if isinstance(t, ast.UnaryOp) and isinstance(t.op, ast.Not):
                         return not ev(t.operand)
-                    if isinstance(t, ast.Compare) and isinstance(t.ops[0], (ast.Is, ast.IsNot, ast.Eq)) and ".kind" in ast.unparse(t.left):
+                    if isinstance(t, ast.Compare) and isinstance(t.ops[0], (ast.Is, ast.IsNot, ast.Eq)) \
+                            and (".kind" in ast.unparse(t.left) or ast.unparse(t.comparators[0]).split(".")[-1] in KINDS):
                         r = ast.unparse(t.comparators[0]).split(".")[-1] == kind
                         return r if not isinstance(t.ops[0], ast.IsNot) else not r
                     if isinstance(t, ast.Name) and flags is not None and t.id in flags:
@@ -306,10 +348,14 @@ def _check_main(ctx, rep: Report):
                 acts.extend(branch_for(s.body if ev(s.test) else s.orelse, kind, flags))
             else:
                 acts.append(s)
+            if acts and isinstance(acts[-1], ast.Return):
+                break
         return acts
     for kind in KINDS:
-        acts = branch_for(loops[0].body, kind)
+        acts = branch_for(call_stmts, kind)
         appended = [ast.unparse(a.value.args[0]) for a in acts if isinstance(a, ast.Expr) and isinstance(a.value, ast.Call) and ast.unparse(a.value.func) == "out.append"]
+        if not loops:
+            appended = [ast.unparse(a.value) for a in acts if isinstance(a, ast.Return) and a.value is not None]
         got = appended[0].strip("f'\"") if appended else None
         if got is not None and not got.startswith(("{", "*")):
             got = "{" + got + "}" if got == "name" else got
